@@ -815,8 +815,8 @@ func runC15(t *mon.T, raw json.RawMessage) {
 func genC15(g *mon.G) {
 	r := gen.Rand(g.Seed)
 	n := g.Pick(800, 15000)
-	dpads := []uint64{0, 0, 1, 7, 1413}
-	ipads := []uint64{0, 0, 1, 1024}
+	dpads := []uint64{0, 0, 1, 7, 1413, 4096, 4097, 8141, 12289}
+	ipads := []uint64{0, 0, 1, 1024, 4097, 10000}
 	sels := []string{"all", "all", "all", "all", "depth", "depth", "depth", "fields", "fields", "fields+all"}
 	budgets := []string{"exact", "minus1", "half", "ample", "zero"}
 	for i := 0; i < n; i++ {
